@@ -320,7 +320,7 @@ def run(repo, outdir):
             facts[f"protodefs_{t}"] = {"status": "untied"}
     L.append("")
 
-    for name, cfile, fn, var in [("prefixMask", "radsecproxy.c", "prefixmatch", "mask"), ("hexDigits", "radsecproxy.c", "char2hex", "hexdigits")]:
+    for name, cfile, fn, var in [("prefixMask", "hostport.c", "prefixmatch", "mask"), ("hexDigits", "radsecproxy.c", "char2hex", "hexdigits")]:
         t = None
         try:
             t = table_u8(repo, cfile, fn, var)
